@@ -73,6 +73,14 @@ class ServiceUnit(object):
         )
 
 
+def _service_declaration(cls):
+    """The ``__new__`` of the most derived ``service`` declaration of ``cls``"""
+    for base in cls.__mro__:
+        new = base.__dict__.get("__new__")
+        if hasattr(new, "__service_flavour__"):
+            return new
+
+
 def service(flavour):
     r"""
     Mark a class as implementing a Service
@@ -95,9 +103,14 @@ def service(flavour):
                 self = __new__(cls)
             else:
                 self = __new__(cls, *args, **kwargs)
-            service_unit = ServiceUnit(self, flavour)
-            self.__service_unit__ = service_unit
+            # a subclass may be declared a service again, e.g. for another flavour:
+            # only the most derived declaration defines the unit of an instance
+            if _service_declaration(cls) is __new_service__:
+                service_unit = ServiceUnit(self, flavour)
+                self.__service_unit__ = service_unit
             return self
+
+        __new_service__.__service_flavour__ = flavour
 
         # ``__new__`` takes precedence for ``inspect.signature(raw_cls)``: expose the
         # signature of the actual constructor instead of ``(*args, **kwargs)``
